@@ -266,6 +266,14 @@ let handle line =
            (z_of_int
               (int_of_nat
                  (crash_category (if before then None else Some (nat_of_int n)) (nat_of_int len)))))
+  | "IOF" ->
+      (* IOF op kept len: an I/O error at the open (0) / write (1) / close (2) of a save, or none (-1) *)
+      let op = next_int c in
+      let kept = next_int c in
+      let len = next_int c in
+      let rec int_of_nat = function O -> 0 | S k -> 1 + int_of_nat k in
+      let (a, b) = io_fault_category (if op < 0 then None else Some (nat_of_int op)) (nat_of_int kept) (nat_of_int len) in
+      print_str (str_of_Z (z_of_int (int_of_nat a)) @ lit_ " " @ str_of_Z (z_of_int (int_of_nat b)))
   | "SR" ->
       (* SR limit nops (F bytes | E | R)*: stream reader schedule; prints the completed reads *)
       let limit = nat_of_int (next_int c) in
